@@ -79,6 +79,39 @@ theorem expand_terminates_ge (R : List Instruction) (hc : Closed E codeSubst cal
     expandFuel E n cals i ≠ .outOfFuel :=
   terminates_aux E codeSubst cals R hc n [] i List.nodup_nil (by simp) hi (by simpa using hn)
 
+theorem expandLoop_ne_outOfFuel (src : Prog) (fuel : Nat) :
+    ∀ (is : List Instruction) (idx : Nat) (np : Prog) (sm : Option (List Entry)),
+      (∀ i ∈ is, expandInnerWith E S src.cals fuel [] i ≠ .outOfFuel) →
+      expandLoop E S src fuel is idx np sm ≠ .outOfFuel := by
+  intro is
+  induction is with
+  | nil => intro idx np sm _; simp [expandLoop]
+  | cons i rest ih =>
+    intro idx np sm hall
+    have hi := hall i (List.mem_cons_self ..)
+    have hr := fun idx np sm => ih idx np sm (fun j hj => hall j (List.mem_cons_of_mem _ hj))
+    unfold expandLoop
+    split
+    · exact hr _ _ _
+    · exact hr _ _ _
+    · simp
+    · rename_i h; exact absurd h hi
+
+/-- **C18 (termination) at the program level**: if every body instruction lies in a finite closed list `R`
+(or has no match), `Program::expand_calibrations` returns the expanded program or the error with `|R| + 1`
+levels of recursion. -/
+theorem program_expand_terminates (p : Prog) (R : List Instruction) (hc : Closed E codeSubst p.cals R)
+    (hall : ∀ i ∈ p.instructions, i ∈ R ∨ oneStep E codeSubst p.cals i = none) :
+    classOf (expandCalibrations E p (R.length + 1)) ≠ .outOfFuel := by
+  have h := expandLoop_ne_outOfFuel E codeSubst p (R.length + 1) p.instructions 0 p.cloneWithoutBody none
+    (fun i hi => terminates_aux E codeSubst p.cals R hc (R.length + 1) [] i List.nodup_nil (by simp)
+      (hall i hi) (by simp))
+  unfold expandCalibrations expandCalibrationsWith
+  simp only [Bool.false_eq_true, if_false]
+  revert h
+  cases expandLoop E codeSubst p (R.length + 1) p.instructions 0 p.cloneWithoutBody none <;>
+    simp [classOf]
+
 /-! ## The error is reported iff an instruction would be expanded again -/
 
 theorem recursive_revisit :
